@@ -63,7 +63,7 @@ func isCRLFSanitizer(f *ssa.Function) bool {
 	p := f.Params[0]
 	// tests for both bytes on the argument
 	var cutR, cutN []edge
-	for _, c := range callsMatching(f, false, nameIs("strings.IndexByte", "bytes.IndexByte", "strings.ContainsRune", "strings.Contains", "strings.ContainsAny")) {
+	for _, c := range callsMatching(f, false, nameIs("strings.IndexByte", "bytes.IndexByte", "strings.ContainsRune", "strings.Contains", "strings.ContainsAny", "strings.IndexAny", "bytes.IndexAny", "bytes.ContainsAny")) {
 		if c.Common.Args[0] != ssa.Value(p) {
 			continue
 		}
@@ -71,7 +71,7 @@ func isCRLFSanitizer(f *ssa.Function) bool {
 		var bytesSought []int64
 		if k, ok := constInt(asConst(c.Common.Args[1])); ok {
 			bytesSought = []int64{k}
-		} else if str, ok := constString(asConst(stripValue(c.Common.Args[1]))); ok && (strings.HasSuffix(c.Name, "ContainsAny") || len(str) == 1) {
+		} else if str, ok := constString(asConst(stripValue(c.Common.Args[1]))); ok && (strings.HasSuffix(c.Name, "Any") || len(str) == 1) {
 			for i := 0; i < len(str); i++ {
 				bytesSought = append(bytesSought, int64(str[i]))
 			}
@@ -87,8 +87,16 @@ func isCRLFSanitizer(f *ssa.Function) bool {
 			s, ok := 0, false
 			if isBool {
 				s, ok = br.truthSlot(false)
-			} else {
-				s, ok = br.eqIntSlot(-1, true)
+			} else if s, ok = br.eqIntSlot(-1, true); !ok {
+				// `i < 0` / `i >= 0`
+				if k, isK := constInt(br.Info.Const); isK {
+					switch {
+					case (br.Info.Op == token.LSS && k == 0) || (br.Info.Op == token.LEQ && k == -1):
+						s, ok = br.slotWhenRel(true), true
+					case (br.Info.Op == token.GEQ && k == 0) || (br.Info.Op == token.GTR && k == -1):
+						s, ok = br.slotWhenRel(false), true
+					}
+				}
 			}
 			if !ok {
 				continue
@@ -121,7 +129,11 @@ func isCRLFSanitizer(f *ssa.Function) bool {
 	}
 	// other returns: a rewritten copy — the function compares bytes with 13 and 10 and stores a constant
 	has13, has10, storesConst := false, false, false
-	for _, b := range f.Blocks {
+	var scope []*ssa.BasicBlock
+	for _, g := range append([]*ssa.Function{f}, helpersOf(f)...) { // the byte test may live in a helper (`isLineBreak(b[i])`)
+		scope = append(scope, g.Blocks...)
+	}
+	for _, b := range scope {
 		for _, in := range b.Instrs {
 			if bo, ok := in.(*ssa.BinOp); ok && (bo.Op == token.EQL || bo.Op == token.NEQ) {
 				if k, ok := constInt(asConst(bo.Y)); ok {
@@ -270,11 +282,13 @@ func runC07(r *Run) {
 		r.check(derived >= 12, "fasthttp-setter-table:derived", "?", fmt.Sprintf("%d setters of the table cross-checked against fasthttp's SSA bodies", derived), "fewer setters than expected could be cross-checked")
 
 		sanitizers := map[*ssa.Function]bool{}
-		r.P.AllFuncs("", func(f *ssa.Function) {
+		var candidates []*ssa.Function
+		r.P.AllFuncs("", func(f *ssa.Function) { candidates = append(candidates, f) })
+		for _, f := range candidates { // judged outside the enumeration: the recogniser looks into helpers (region mode)
 			if isCRLFSanitizer(f) {
 				sanitizers[f] = true
 			}
-		})
+		}
 		var sanNames []string
 		for f := range sanitizers {
 			sanNames = append(sanNames, f.Name())
@@ -367,8 +381,16 @@ func runC07(r *Run) {
 				return
 			}
 			writes := callsMatching(f, false, nameIs("(*github.com/valyala/fasthttp.ResponseHeader).SetCookie"))
+			// a helper that only stores the path (`setCookiePath(fcookie, path)`): what must not be reached unchecked is
+			// its return — the caller writes the cookie afterwards
+			var exits []ssa.Instruction
+			for _, w := range writes {
+				exits = append(exits, w.Instr)
+			}
 			if len(writes) == 0 {
-				return
+				for _, ri := range instrsWhereOne(f, isReturn) {
+					exits = append(exits, ri)
+				}
 			}
 			// edges on which the decoded path is known to hold no CR resp. no LF
 			clean := map[byte]map[edge]bool{'\r': {}, '\n': {}}
@@ -397,6 +419,46 @@ func runC07(r *Run) {
 					}
 				}
 			}
+			// the same test for both bytes at once: bytes.ContainsAny / IndexAny(path, "\r\n")
+			for _, c := range callsMatching(f, false, nameIs("bytes.ContainsAny", "strings.ContainsAny", "bytes.IndexAny", "strings.IndexAny")) {
+				set, isS := constString(asConst(stripValue(c.Common.Args[1])))
+				if !isS || dependsOn(c.Common.Args[0], func(v ssa.Value) bool {
+					cc, ok := v.(*ssa.Call)
+					return ok && calleeName(&cc.Call) == "(*github.com/valyala/fasthttp.Cookie).Path"
+				}) == nil {
+					continue
+				}
+				// the bytes the code waits to disappear are bytes the sanitiser removes (CR and LF): a loop that re-sanitises
+				// until a byte is gone that sanitizeHeaderValue leaves alone never ends
+				for i := 0; i < len(set); i++ {
+					if set[i] != '\r' && set[i] != '\n' {
+						r.bad(fmt.Sprintf("%s:decoded-path-test:only-bytes-the-sanitiser-removes", f.Name()), r.pos(c.Instr), fmt.Sprintf("the decoded cookie path is re-sanitised until it holds none of %q, but the sanitiser replaces CR and LF only: a Path with byte %#x (raw or percent-encoded) keeps the handler in that loop for ever — the request never returns and its worker is never released", set, set[i]))
+						break
+					}
+				}
+				for _, br := range ifsOnValue(f, c.Value()) {
+					var e *edge
+					if strings.HasSuffix(c.Name, "ContainsAny") {
+						if sl, ok := br.truthSlot(false); ok {
+							e = &edge{br.If.Block(), sl}
+						}
+					} else if sl, ok := br.eqIntSlot(-1, true); ok {
+						e = &edge{br.If.Block(), sl}
+					} else if br.Info.Op == token.GEQ {
+						e = &edge{br.If.Block(), br.slotWhenRel(false)}
+					} else if br.Info.Op == token.LSS {
+						e = &edge{br.If.Block(), br.slotWhenRel(true)}
+					}
+					if e == nil {
+						continue
+					}
+					for _, ch := range []byte{'\r', '\n'} {
+						if strings.IndexByte(set, ch) >= 0 {
+							clean[ch][*e] = true
+						}
+					}
+				}
+			}
 			for _, sp := range setPaths {
 				np++
 				okP := true
@@ -405,8 +467,8 @@ func runC07(r *Run) {
 						okP = false
 						continue
 					}
-					for _, w := range writes {
-						if _, hit := reach(pointAfter(sp.Instr), func(in ssa.Instruction) bool { return in == w.Instr }, clean[ch], nil); hit != nil {
+					for _, w := range exits {
+						if _, hit := reach(pointAfter(sp.Instr), func(in ssa.Instruction) bool { return in == w }, clean[ch], nil); hit != nil {
 							okP = false
 						}
 					}
